@@ -2,14 +2,26 @@
 // SyncedEnforcer (DESIGN.md Appendix B).  It is part of the TRUSTED BASE of C12/C13: its
 // soundness is not proved.
 //
-// What it does.  For every method DECLARED with receiver *SyncedEnforcer (the wrapped API) and
-// for every goroutine body such a method starts:
+// What it does.  For every EXPORTED method DECLARED with receiver *SyncedEnforcer (the wrapped API;
+// unexported methods cannot be called from outside the package: they are helpers, looked into
+// where a wrapper uses them, and listed in the JSON dump) and for every goroutine body such a
+// method -- or a helper of it -- starts (go func(){...}() or go e.helper(args)):
 //   - the ordered critical sections on e.m, from the SSA control-flow graph, along every path:
 //     Lock/RLock ... Unlock/RUnlock incl. deferred unlocks; all paths must be prefixes of the
 //     longest one, every acquired lock must be released before return, no acquisition while
 //     holding, no lock state change inside a loop, no call of something that itself acquires
 //     e.m while holding it -- otherwise the wrapper is emitted as Irregular (table_ok fails);
-//     code outside any section that touches shared memory forms a lock-free (NoLock) section;
+//     code outside any section that touches shared memory forms a lock-free (NoLock) section.
+//     The walk is interprocedural for helpers (sections.go): a callee that is not an exported
+//     wrapper and that operates e.m -- directly, transitively, or through a function value it
+//     creates, returns, receives or calls -- is walked inline with its own defer stack, and
+//     function values are followed through parameters, closure bindings, call results, phi
+//     nodes and single-assignment local variables, so that `e.withRLock(func(){...})`,
+//     `defer e.acquireRead()()` (helper locks and returns e.m.RUnlock), `defer guard(&e.m)()`,
+//     `locked(write bool, f)` (branches on constant arguments are followed on the side the call
+//     site fixes) and a LoadPolicy split into loadIntoNewModel / installModel give the table of
+//     the direct style.  A function value the walk cannot resolve, a mutex it cannot identify,
+//     TryLock & co on e.m, recursion among such helpers => Irregular (never guessed);
 //   - per section the abstract locations (Type.field, package variables, captured variables,
 //     "[]" = elements of a slice / map, "{}" = contents of a sync.Map or channel) that MAY be
 //     accessed inside it by the wrapper and, transitively, by everything it calls:
